@@ -554,6 +554,11 @@ Lemma imports_refuted :
   /\ (forallb (decl_agreeb ex_token) (pk_decls ex_token) = true /\ y_compiles ex_token = false).
 Proof. vm_compute. repeat split; reflexivity. Qed.
 
+Lemma statement_refuted : ~ c18_statement.
+Proof.
+  intros H. destruct (H ex_float eq_refl) as [H1 _]. vm_compute in H1. discriminate.
+Qed.
+
 (* ================================================================== *)
 (** * Non-vacuity of the side conditions *)
 
